@@ -48,7 +48,10 @@
 //! Actual memory usage may differ from tracked amounts. The goal is preventing
 //! runaway queries from exhausting system memory, not precise accounting.
 
+#[cfg(not(kahflane_turdb_verif_sched))]
 use std::sync::atomic::{AtomicUsize, Ordering};
+#[cfg(kahflane_turdb_verif_sched)]
+use shuttle::sync::atomic::{AtomicUsize, Ordering};
 use std::sync::OnceLock;
 
 use eyre::{bail, Result};
